@@ -27,7 +27,7 @@ VARIABLE l
 If(c, name) == IF c THEN {} ELSE {name}
 
 (* deviations of the canonical-form function that are recorded as known findings *)
-CanonDevIds == {"C12-extra-keys-kept", "C12-logical-primitive-object"} \cap KnownIds
+CanonDevIds == {"C12-extra-keys-kept", "C12-logical-primitive-object", "C12-foreign-structural-key-kept"} \cap KnownIds
 DevSets == (SUBSET CanonDevIds) \ {{}}
 
 (* the smallest deviation set under which the deviant function maps input `inp` to `obs` *)
